@@ -9,8 +9,9 @@ open ZV ZV.Proto ZV.Sync
 
 /-- the decisive lines of `InsertChain` as they stand in the working tree (AST facts): the window constant
     and both comparison operators, the offset of every index returned out of the insert loop, the order of
-    the tests, and that `RollbackTo` is called before the loop. The model uses `Gen.InsertChainWindow`; the
-    operators `>` / `<=` are the ones written in `insertSuffix`. -/
+    the tests — the emptiness test first, `target == nil` before the first use of `target` (264f72a) — the
+    first `return` being `0, nil`, and that `RollbackTo` is called before the loop. The model uses
+    `Gen.InsertChainWindow`; the operators `>` / `<=` are the ones written in `insertSuffix`. -/
 theorem insertChain_shape_in_code :
     Gen.InsertChainWindow = 30 ∧ Gen.InsertChainWindowOp = ">" ∧ Gen.InsertChainLongerOp = "<=" ∧
     Gen.InsertChainLoopReturnIndex = ["index + start", "index + start", "index + start", "index + start"] ∧
@@ -20,6 +21,8 @@ theorem insertChain_shape_in_code :
       "target == nil", "target.Identifier() != head.Previous()", "ourFrontier.Height-target.Height > 30",
       "tail.Height <= ourFrontier.Height", "err != nil", "block.BlockType == nom.BlockTypeContractSend",
       "patch != nil", "err != nil", "err != nil", "err != nil", "err != nil"] ∧
+    Gen.InsertChainReturns.head? = some "0 / nil" ∧
+    Gen.InsertChainReturns.length = 15 ∧
     Gen.InsertChainRollbackBeforeApplyLoop = true := by decide
 
 /-- T1 `adopt_conditions`: if the chain after the call is not an extension of the chain before, then the
@@ -93,7 +96,7 @@ theorem adopt_longer_on_success (valid : DM → Bool) (n : Node) (ms : List DM)
     n.frontier.height < (insertChain valid n ms).1.frontier.height := by
   unfold insertChain at hok hleave ⊢
   cases ms with
-  | nil => cases hok
+  | nil => exact absurd (List.prefix_refl _) hleave
   | cons m0 mt =>
     simp only at hok hleave ⊢
     generalize dropKnown n (m0 :: mt) = suffix at hok hleave ⊢
@@ -235,27 +238,30 @@ theorem failure_index (valid : DM → Bool) (n : Node) (ms : List DM)
       · rw [he] at herr
         exact absurd herr ho
 
-/-- T4 `idempotent_on_known`: a non-empty batch of momentums the node already holds returns (0, nil) and
-    leaves the node exactly as it was. -/
-theorem idempotent_on_known (valid : DM → Bool) (n : Node) (ms : List DM) (hne : ms ≠ [])
+/-- T4 `idempotent_on_known`: a batch of momentums the node already holds — the empty batch included —
+    returns (0, nil) and leaves the node exactly as it was. -/
+theorem idempotent_on_known (valid : DM → Bool) (n : Node) (ms : List DM)
     (hall : ∀ d ∈ ms, n.held d = true) : insertChain valid n ms = (n, 0, .ok) := by
   unfold insertChain
   cases ms with
-  | nil => exact absurd rfl hne
+  | nil => rfl
   | cons m0 mt =>
     simp only
     rw [dropKnown_all_held n _ hall]
     rfl
 
 /-- T4, overlap: a known prefix in front of a batch changes nothing but the offset of a reported failure
-    index: same resulting node, same outcome, index + |known| on a verification error. -/
-theorem overlap_skips_known (valid : DM → Bool) (n : Node) (known rest : List DM) (hr : rest ≠ [])
+    index: same resulting node, same outcome, index + |known| on a verification error. (Also when nothing
+    follows the known prefix: both sides are then (node, 0, nil).) -/
+theorem overlap_skips_known (valid : DM → Bool) (n : Node) (known rest : List DM)
     (hall : ∀ d ∈ known, n.held d = true) :
     insertChain valid n (known ++ rest) = shiftIdx known.length (insertChain valid n rest) := by
-  unfold insertChain
   cases rest with
-  | nil => exact absurd rfl hr
+  | nil =>
+    rw [List.append_nil, idempotent_on_known valid n known hall]
+    rfl
   | cons r0 rt =>
+    unfold insertChain
     cases hk : known ++ r0 :: rt with
     | nil => simp at hk
     | cons a t =>
@@ -268,53 +274,101 @@ theorem overlap_skips_known (valid : DM → Bool) (n : Node) (known rest : List 
       rw [this]
       exact insertSuffix_shift valid known.length n _ _
 
-/-- T5 `insert_total`, PARTIAL: no panic — provided the batch is not empty and its first momentum the node
-    does not hold claims a height between 2 and frontier + 1 (so that `GetMomentumByHeight(height − 1)`
-    finds a target). What is missing: exactly these premises; see the negative witnesses below. -/
-theorem insert_total_partial (valid : DM → Bool) (n : Node) (ms : List DM) (hwf : n.WF) (hne : ms ≠ [])
-    (hhead : ∀ head more, dropKnown n ms = head :: more → 2 ≤ head.height ∧ head.height ≤ n.frontier.height + 1) :
+/-- T5 `insert_total`: no panic — for every verification oracle, every node (well-formed or not) and every
+    batch: empty, starting above frontier + 1, claiming height 0 or 1, anything. No premise. -/
+theorem insert_total (valid : DM → Bool) (n : Node) (ms : List DM) :
     (insertChain valid n ms).2.2 ≠ .panic := by
   unfold insertChain
   cases ms with
-  | nil => exact absurd rfl hne
+  | nil => simp
   | cons m0 mt =>
     simp only
-    generalize dropKnown n (m0 :: mt) = suffix at hhead
+    generalize dropKnown n (m0 :: mt) = suffix
     generalize (m0 :: mt).length - suffix.length = start
-    unfold insertSuffix
     cases suffix with
-    | nil => simp
+    | nil => simp [insertSuffix]
     | cons head more =>
-      simp only
-      obtain ⟨h2, hle⟩ := hhead head more rfl
-      split
-      · split
-        · next hb =>
-          -- a target exists: height-1 is between 1 and the frontier
-          have hf := wf_frontier_height hwf
-          have hp : pred64 head.height = head.height - 1 := by unfold pred64; split <;> omega
-          obtain ⟨t, ht⟩ := byHeight_of_le (n := n) (h := pred64 head.height) (by omega) (by omega)
-          rw [ht] at hb; cases hb
-        · split
-          · simp
-          · split
-            · simp
-            · split
-              · simp
-              · exact applyLoop_ne_panic valid _ _ _
-      · exact applyLoop_ne_panic valid _ _ _
+      rcases insertSuffix_cases valid n head more start with ⟨_, he⟩ | ⟨target, _, _, _, _, _, he⟩ | ⟨o, he, _, _, hp, _⟩
+      · rw [he]; exact applyLoop_ne_panic valid _ _ _
+      · rw [he]; exact applyLoop_ne_panic valid _ _ _
+      · rw [he]; exact hp
 
-/-- negative witness 1 for T5: the empty batch panics (`momentums[0]`) on every node. -/
-theorem insert_total_false_empty (valid : DM → Bool) (n : Node) : (insertChain valid n []).2.2 = .panic := rfl
+/-- T5, the empty batch (it used to panic on `momentums[0]`; F7c, repaired in 264f72a): (0, nil), node
+    untouched — on every node. -/
+theorem insert_empty (valid : DM → Bool) (n : Node) : insertChain valid n [] = (n, 0, .ok) := rfl
 
-/-- negative witnesses 2–4 for T5 on the node [g(1), a(2)]: a batch that starts above frontier + 1, a head
-    claiming height 0, and a head claiming height 1 with a hash other than genesis all panic
-    (`target.Identifier()` on a nil target). -/
-theorem insert_total_false_nil_target :
+/-- T5, the batches that used to dereference a nil `target` (F7c): when the first momentum the node does not
+    hold claims height 0, height 1 (then its hash is not the genesis hash, or it would have been skipped) or a
+    height of frontier + 2 and above, the call returns index 0 with the link error and the node is exactly
+    as it was — whatever follows in the batch and whatever the oracle says. -/
+theorem insert_unlinkable_refused (valid : DM → Bool) (n : Node) (ms : List DM) (hwf : n.WF) (head : DM)
+    (more : List DM) (hd : dropKnown n ms = head :: more)
+    (hh : head.height ≤ 1 ∨ n.frontier.height + 2 ≤ head.height) :
+    insertChain valid n ms = (n, 0, .errLink) := by
+  have hf := wf_frontier_height hwf
+  have hb := hwf.bound
+  have hcl := chain_length n
+  -- no own momentum sits at the height the head names as its previous
+  have hnone : n.byHeight (pred64 head.height) = none := by
+    cases hbh : n.byHeight (pred64 head.height) with
+    | none => rfl
+    | some t =>
+      have hw := byHeight_wf hwf hbh
+      unfold pred64 at hw
+      split at hw <;> omega
+  unfold insertChain
+  cases ms with
+  | nil => simp [dropKnown] at hd
+  | cons m0 mt =>
+    simp only
+    rw [hd]
+    rcases insertSuffix_cases valid n head more ((m0 :: mt).length - (head :: more).length) with
+      ⟨hl, _⟩ | ⟨target, _, hbt, _⟩ | ⟨o, he, _, _, _, hlink⟩
+    · -- the head cannot name the frontier as its previous
+      unfold DM.prevId DM.id at hl
+      have h2 : pred64 head.height = n.frontier.height := (Prod.mk.inj hl).2
+      unfold pred64 at h2
+      split at h2 <;> omega
+    · rw [hnone] at hbt; cases hbt
+    · rw [he, hlink hnone]
+
+/-- every refusal that is not a verification error (link, too far, not longer) leaves the node exactly as it
+    was and reports index 0. -/
+theorem refused_unchanged (valid : DM → Bool) (n : Node) (ms : List DM)
+    (h1 : (insertChain valid n ms).2.2 ≠ .ok) (h2 : (insertChain valid n ms).2.2 ≠ .errVerify) :
+    (insertChain valid n ms).1 = n ∧ (insertChain valid n ms).2.1 = 0 := by
+  unfold insertChain at h1 h2 ⊢
+  cases ms with
+  | nil => exact ⟨rfl, rfl⟩
+  | cons m0 mt =>
+    simp only at h1 h2 ⊢
+    generalize dropKnown n (m0 :: mt) = suffix at h1 h2 ⊢
+    generalize (m0 :: mt).length - suffix.length = start at h1 h2 ⊢
+    cases suffix with
+    | nil => exact ⟨rfl, rfl⟩
+    | cons head more =>
+      rcases insertSuffix_cases valid n head more start with ⟨_, he⟩ | ⟨target, _, _, _, _, _, he⟩ | ⟨o, he, _⟩
+      · rw [he] at h1 h2
+        obtain ⟨_, _, _, _, h4⟩ := applyLoop_spec valid (head :: more) n start
+        rcases h4 with ⟨o, _, _⟩ | ⟨o, _, _⟩
+        · exact absurd o h1
+        · exact absurd o h2
+      · rw [he] at h1 h2
+        obtain ⟨_, _, _, _, h4⟩ := applyLoop_spec valid (head :: more) (n.rollbackTo target.height) start
+        rcases h4 with ⟨o, _, _⟩ | ⟨o, _, _⟩
+        · exact absurd o h1
+        · exact absurd o h2
+      · rw [he]; exact ⟨rfl, rfl⟩
+
+/-- the former negative witnesses of T5 on the node [g(1), a(2)], now positive: a batch that starts above
+    frontier + 1, a head claiming height 0, and a head claiming height 1 with a hash other than genesis are
+    all refused with the link error, index 0, node unchanged; the empty batch is a no-op. -/
+theorem insert_former_counterexamples :
     let n : Node := { genesis := ⟨1, 10, 0, 1⟩, rest := [⟨2, 20, 10, 1⟩] }
-    (insertChain (fun _ => true) n [⟨4, 40, 30, 1⟩]).2.2 = .panic ∧
-    (insertChain (fun _ => true) n [⟨0, 50, 20, 1⟩]).2.2 = .panic ∧
-    (insertChain (fun _ => true) n [⟨1, 99, 0, 1⟩]).2.2 = .panic := by decide
+    insertChain (fun _ => true) n [⟨4, 40, 30, 1⟩] = (n, 0, .errLink) ∧
+    insertChain (fun _ => true) n [⟨0, 50, 20, 1⟩] = (n, 0, .errLink) ∧
+    insertChain (fun _ => true) n [⟨1, 99, 0, 1⟩] = (n, 0, .errLink) ∧
+    insertChain (fun _ => true) n [] = (n, 0, .ok) := by decide
 
 /-- negative witness for "leaves its chain only for a verified, strictly longer chain": the rollback is
     done before anything is verified. Node [g(1), a(2), b(3), c(4)]; the batch is a side chain off `g`
